@@ -112,6 +112,7 @@ type mapIter struct {
 	m     *Term
 	mt    *types.Map
 	cell  int // holds the visited set (Array K Bool) as a scalar Val
+	ncell int // number of keys handed out so far (= cardinality of the visited set)
 	isStr bool
 }
 
@@ -1354,6 +1355,7 @@ func (e *Engine) rangeInit(fr *Frame, st *State, x *ssa.Range) {
 			unsupp("range over map with key %s", mt.Key())
 		}
 		it.cell = e.newCell(st, scalar(ConstArr(arrSort(ks, SBool), False())))
+		it.ncell = e.newCell(st, scalar(IntLit(0)))
 	} else {
 		it.isStr = true
 		it.m = e.val(fr, st, x.X).T
@@ -1390,6 +1392,15 @@ func (e *Engine) rangeNext(fr *Frame, st *State, x *ssa.Next) Val {
 	q := BoundVar("qk", ks)
 	st.assume(Implies(Not(ok), Forall([]*Term{q}, Implies(And(Ne(it.m, IntLit(0)), Select(dom, q)), Select(visited, q)), Select(visited, q))))
 	st.cells[it.cell] = scalar(Ite(ok, Store(visited, k, True()), visited))
+	// the keys handed out are pairwise different, so their number is the cardinality of the visited set; when the
+	// visited set is exactly the map's domain at the exit, that number is the map's length
+	nv := st.cells[it.ncell].T
+	st.assume(Ge(nv, IntLit(0)))
+	q2 := BoundVar("qc", ks)
+	st.assume(Implies(And(Not(ok), Ne(it.m, IntLit(0)), Forall([]*Term{q2}, Implies(Select(visited, q2), Select(dom, q2)), Select(visited, q2))),
+		Eq(nv, e.mapCard(st, mt, it.m))))
+	st.assume(Implies(And(Not(ok), Eq(it.m, IntLit(0))), Eq(nv, IntLit(0))))
+	st.cells[it.ncell] = scalar(Ite(ok, Add(nv, IntLit(1)), nv))
 	kv := Val{T: k}
 	if kindOf(mt.Key()) == kInt {
 		st.intFact(k, mt.Key())
